@@ -256,7 +256,8 @@ class Search:
     def run(self, starts: List[Tuple[int, object, Facts]],
             step: Callable[[Ev, object, Facts], object],
             goal: Callable[[Ev, object, Facts], bool],
-            edge_ok: Optional[Callable[[Ev, str, Ev], bool]] = None):
+            edge_ok: Optional[Callable[[Ev, str, Ev], bool]] = None,
+            edge_step: Optional[Callable[[Optional[Ev], Optional[str], Ev, object, Facts], object]] = None):
         """`step(ev, state, facts)` is applied when *entering* ev and returns the new state or None to
         prune.  Returns (path, state, facts) for the first goal found, else None."""
         g = self.g
@@ -265,7 +266,7 @@ class Search:
         for node, state, facts in starts:
             ev = g.evs[node]
             facts = self.fo.transfer(g, ev, facts)
-            st = step(ev, state, facts)
+            st = edge_step(None, None, ev, state, facts) if edge_step is not None else step(ev, state, facts)
             if st is None:
                 continue
             key = (node, st, facts)
@@ -303,7 +304,7 @@ class Search:
                 if edge_ok is not None and not edge_ok(ev, lab, mev):
                     continue
                 nfacts = self.fo.transfer(g, mev, nfacts)
-                nstate = step(mev, state, nfacts)
+                nstate = edge_step(ev, lab, mev, state, nfacts) if edge_step is not None else step(mev, state, nfacts)
                 if nstate is None:
                     continue
                 nkey = (m, nstate, nfacts)
